@@ -119,34 +119,43 @@ SEED_HISTORY = [["Open", 1], ["Open", 2], ["Review", 2, "APPROVED"], ["Status", 
 
 
 def gen_history(rng, length, max_prs=3):
-    """Random history biased towards reaching merges: PRs get approved, checks succeed, CI cycles run."""
-    evs = []
-    n_prs = 0
-    for _ in range(length):
+    """Random history made of rounds: a few GitHub / batch events, then CI actions (often a whole refresh-update-heal cycle),
+    biased towards PRs that become mergeable so that the gating conditions are exercised one at a time."""
+    evs = [['Open', 1]]
+    n_prs = 1
+    while len(evs) < length:
+        for _ in range(rng.randint(0, 3)):
+            r = rng.random()
+            n = rng.randint(1, n_prs)
+            if n_prs < max_prs and r < 0.08:
+                n_prs += 1
+                evs.append(['Open', n_prs])
+            elif r < 0.18:
+                evs.append(['Push', n])
+            elif r < 0.42:
+                evs.append(['Review', n, rng.choice(['APPROVED'] * 7 + ['CHANGES_REQUESTED', 'REVIEW_REQUIRED', 'NONE'])])
+            elif r < 0.50:
+                evs.append(['Label', n, rng.random() < 0.25, rng.random() < 0.3, rng.random() < 0.1])
+            elif r < 0.62:
+                evs.append(['Status', n, rng.choice([1, 1, 2]), rng.choice(['SUCCESS'] * 7 + ['PENDING', 'FAILURE', 'FAILURE'])])
+            elif r < 0.70:
+                evs.append(['TargetMove'])
+            else:
+                evs.append(['BatchComplete', n, rng.random() < 0.7])
         r = rng.random()
-        if n_prs == 0 or (n_prs < max_prs and r < 0.06):
-            n_prs += 1
-            evs.append(['Open', n_prs])
-            continue
-        n = rng.randint(1, n_prs)
-        if r < 0.14:
-            evs.append(['Push', n])
-        elif r < 0.26:
-            evs.append(['Review', n, rng.choice(['APPROVED', 'APPROVED', 'APPROVED', 'CHANGES_REQUESTED', 'REVIEW_REQUIRED', 'NONE'])])
-        elif r < 0.31:
-            evs.append(['Label', n, rng.random() < 0.3, rng.random() < 0.3, rng.random() < 0.15])
-        elif r < 0.39:
-            evs.append(['Status', n, rng.choice([1, 1, 2]), rng.choice(['SUCCESS', 'SUCCESS', 'SUCCESS', 'PENDING', 'FAILURE'])])
-        elif r < 0.44:
-            evs.append(['TargetMove'])
-        elif r < 0.58:
-            evs.append(['BatchComplete', n, rng.random() < 0.8])
-        elif r < 0.74:
-            evs.append(['Fetch', None if rng.random() < 0.65 else rng.randint(0, n_prs)])
-        elif r < 0.86:
+        if r < 0.55:
+            evs.append(['Fetch', None if rng.random() < 0.7 else rng.randint(0, n_prs)])
             evs.append(['UpdateBatch'])
+            evs.append(['HealMerge', True])
+        elif r < 0.70:
+            evs.append(['UpdateBatch'])
+            evs.append(['HealMerge', rng.random() < 0.85])
+        elif r < 0.82:
+            evs.append(['Fetch', None if rng.random() < 0.5 else rng.randint(0, n_prs)])
+        elif r < 0.91:
+            evs.append(['HealMerge', rng.random() < 0.85])
         else:
-            evs.append(['HealMerge', rng.random() < 0.8])
+            evs.append(['UpdateBatch'])
     return evs
 
 
@@ -167,6 +176,17 @@ def small_scope():
     two = [["Open", 1], ["Open", 2], ["Review", 1, "APPROVED"], ["Review", 2, "APPROVED"], ["Fetch", None], ["UpdateBatch"], ["HealMerge", True],
            ["BatchComplete", 1, True], ["BatchComplete", 2, True], ["UpdateBatch"], ["HealMerge", True], ["HealMerge", True], ["UpdateBatch"],
            ["HealMerge", True], ["Fetch", None], ["UpdateBatch"], ["HealMerge", True], ["BatchComplete", 2, True], ["UpdateBatch"], ["HealMerge", True]]
+    # every gating condition violated on its own: none of these may merge
+    pre = [["Open", 1], ["Status", 1, 1, "SUCCESS"]]
+    cyc = [["Fetch", None], ["UpdateBatch"], ["HealMerge", True]]
+    for gate in ([["Review", 1, "APPROVED"]], [], [["Review", 1, "CHANGES_REQUESTED"]], [["Review", 1, "REVIEW_REQUIRED"]],
+                 [["Review", 1, "APPROVED"], ["Label", 1, True, False, False]], [["Review", 1, "APPROVED"], ["Status", 1, 2, "PENDING"]],
+                 [["Review", 1, "APPROVED"], ["Status", 1, 2, "FAILURE"]], [["Review", 1, "APPROVED"], ["Label", 1, False, False, True]]):
+        for ok in (True, False):
+            out.append(pre + gate + cyc + [["BatchComplete", 1, ok]] + cyc + cyc)
+            out.append(pre + gate + cyc + [["BatchComplete", 1, ok], ["UpdateBatch"], ["TargetMove"]] + cyc + [["BatchComplete", 1, ok]] + cyc)
+            out.append(pre + gate + cyc + [["BatchComplete", 1, ok], ["UpdateBatch"], ["Push", 1], ["Fetch", 0], ["HealMerge", True], ["BatchComplete", 1, ok],
+                                           ["UpdateBatch"], ["HealMerge", True]])
     out.append(two)
     out.append(two[:11] + [["Label", 2, False, True, False], ["Fetch", None]] + two[11:])
     return out
